@@ -1,4 +1,4 @@
-// CONFIGS: back back11 backmp11
+// CONFIGS: back back11 backmp11 backmp11_ct
 // family `queue` (C04, C10): behaviours submit numbered events from every callback position (guard, exit, action, entry,
 // initial entries during start(), submachine behaviours); enqueue_event + execute_queued_events; completion transitions with
 // pending events.  Oracle from the statements: a submitted event never interrupts the running step, stored events are
